@@ -264,7 +264,7 @@ def sdt(f, rep):
         for variant in _generic_variants(b):
             I = new_interp(f)
             sv = I.sym_value('sdt::Sdt', 'self')
-            I.st.ranges[seqlen(sv.fields['data'].segs)] = (36, (1 << 64) - 1)
+            I.st.ranges[seqlen(sv.fields['data'].segs)] = (36, (1 << 63) - 1)
             args = [_sdt_arg(I, nm, t, variant) for nm, t in params_of(b)[1:]]
             run_fn(I, b['def'], [RefV(Cell(sv), True)] + args, tsub={'T': variant} if variant else None)
             rep.analysed.update([b['def']] + I.calls_seen)
